@@ -5,7 +5,18 @@ HERE = os.path.dirname(os.path.dirname(os.path.abspath(__file__)))
 props = [json.loads(l) for l in open(os.path.join(HERE, "properties.jsonl"))]
 ids = [p["id"] for p in props]
 
+F1note = "'Accepted' is bound to the observed exit status. Inputs come from the finite choice sets of spec/PipelineMC.tla. The OpenAPI document is read by a plain JSON walk (harness/cmd/vcheck/openapi.go). One recording per (tree, tier, seed) is shared by the pipeline family and cached under .cache/ keyed by the content hash of the repository and of the machinery. Trusted: TLC, Json module, the concretiser/projector pair."
+F1tech = "TLA+ model (Project.tla + Pipeline.tla) checked with TLC; TLC-generated projects concretised and run through the real CLI; hook traces validated by TLC (PipelineTrace.tla)"
 CLAIMED = {
+ "C06": dict(level="model_checking", design="DESIGN.md §3 C06, §10",
+   text="ExpectedOperation (parameters in signature order with wire name/location/requiredness/schema, JSON or form body, success and error responses) is an operator of Project.tla over the method's signature and annotations; TLC generates methods over every single parameter kind/location/pointer-ness/alias/validator and pairs/triples of representatives, seven return shapes, error-response lists and @Response; the operations of both OpenAPI documents written by the real CLI are compared field by field with the expectation.",
+   note=F1note, technique=F1tech),
+ "C10": dict(level="model_checking", design="DESIGN.md §3 C10, §10",
+   text="WellLinked is an operator of Project.tla (with a named as-built variant for the one recorded validator gap); TLC applies every single perturbation (drop/duplicate/rename/retarget/retype of annotations, parameters, placeholders at method and controller level, return list, verb) and sampled double perturbations to two base routes; the diagnostics of the real GenerateGraph+Validate decide acceptance per route, which must equal WellLinked, and any error diagnostic must make the CLI fail with the file system untouched (also checked by TLC on the hook traces).",
+   note=F1note, technique=F1tech),
+ "C18": dict(level="model_checking", design="DESIGN.md §3 C18, §10",
+   text="Every diagnostic the real validators produce on the perturbed projects is measured against the source text (file exists and is the declaring file, 0-based range inside the file and inside the doc comment/declaration of the entity, start <= end, text covered by value diagnostics, duplicates in the list and in the command's error text) and the measurements are judged by the stated rules; the perturbation space is the TLC-enumerated one of C10.",
+   note=F1note + " Layout variation (multibyte text before the token, several controllers per file) is limited to what the generated projects contain; code/severity tables are checked only through C10's acceptance verdicts.", technique=F1tech),
  "C01": dict(level="model_checking", design="DESIGN.md §3 C01, §10",
    text="Project.tla states DocumentedOps declaratively; Pipeline.tla models the session and TLC checks on it that the written document is DocumentedOps in every terminal state. TLC enumerates / random-walks projects (controllers, packages, files, prefixes, routes, verbs, hidden/deprecated); each is concretised into a Go module and run through the real CLI for both OpenAPI versions; the operations found in the written documents are compared with the expectation TLC printed.",
    note="'Accepted' is bound to the observed exit status. Inputs come from the finite choice sets of spec/PipelineMC.tla. The OpenAPI document is read by a plain JSON walk (harness/cmd/vcheck/openapi.go). One recording per (tree, tier, seed) is shared by the pipeline family and cached under .cache/ keyed by the content hash of the repository and of the machinery. Trusted: TLC, Json module, the concretiser/projector pair.", technique='TLA+ model (Project.tla + Pipeline.tla) checked with TLC; TLC-generated projects concretised and run through the real CLI; hook traces validated by TLC (PipelineTrace.tla)'),
